@@ -81,6 +81,9 @@ pub struct Case {
     /// asked predict / predict_oob again: a restored forest is a forest
     #[serde(default)]
     pub roundtrip: u8,
+    /// matrix back end: 0 = DenseMatrix, 1 = ndarray (row-major), 2 = ndarray (column-major memory layout), 3 = nalgebra
+    #[serde(default)]
+    pub backend: u8,
 }
 
 /// source row (of training rows + queries) behind every row of the many-row call
@@ -121,6 +124,55 @@ impl Drop for StdPlanGuard {
 }
 
 pub struct C06;
+
+/// a matrix back end the forests can be fitted on and asked through (the clauses do not depend on how rows are stored)
+pub trait Mx<T: RealNumber>: smartcore::linalg::Matrix<T> {
+    /// layout: 1 = column-major memory layout where the back end has a choice
+    fn build(rows: &[Vec<f64>], layout: u8) -> Self;
+    fn vec_from(v: &[f64]) -> Self::RowVector;
+    fn vec_to64(v: Self::RowVector) -> Vec<f64>;
+}
+macro_rules! mx {
+    ($t:ty) => {
+        impl Mx<$t> for DenseMatrix<$t> {
+            fn build(rows: &[Vec<f64>], _layout: u8) -> Self {
+                mat_t(rows)
+            }
+            fn vec_from(v: &[f64]) -> Vec<$t> {
+                v.iter().map(|x| *x as $t).collect()
+            }
+            fn vec_to64(v: Vec<$t>) -> Vec<f64> {
+                v.iter().map(|x| *x as f64).collect()
+            }
+        }
+        impl Mx<$t> for ndarray::Array2<$t> {
+            fn build(rows: &[Vec<f64>], layout: u8) -> Self {
+                use ndarray::ShapeBuilder;
+                let (n, p) = (rows.len(), rows[0].len());
+                if layout == 1 { ndarray::Array2::from_shape_fn((n, p).f(), |(i, j)| rows[i][j] as $t) } else { ndarray::Array2::from_shape_fn((n, p), |(i, j)| rows[i][j] as $t) }
+            }
+            fn vec_from(v: &[f64]) -> ndarray::Array1<$t> {
+                ndarray::Array1::from_shape_fn(v.len(), |i| v[i] as $t)
+            }
+            fn vec_to64(v: ndarray::Array1<$t>) -> Vec<f64> {
+                v.iter().map(|x| *x as f64).collect()
+            }
+        }
+        impl Mx<$t> for nalgebra::DMatrix<$t> {
+            fn build(rows: &[Vec<f64>], _layout: u8) -> Self {
+                nalgebra::DMatrix::from_fn(rows.len(), rows[0].len(), |i, j| rows[i][j] as $t)
+            }
+            fn vec_from(v: &[f64]) -> nalgebra::RowDVector<$t> {
+                nalgebra::RowDVector::from_fn(v.len(), |_, i| v[i] as $t)
+            }
+            fn vec_to64(v: nalgebra::RowDVector<$t>) -> Vec<f64> {
+                v.iter().map(|x| *x as f64).collect()
+            }
+        }
+    };
+}
+mx!(f32);
+mx!(f64);
 
 fn mat_t<T: RealNumber>(rows: &[Vec<f64>]) -> DenseMatrix<T> {
     let n = rows.len();
@@ -198,19 +250,29 @@ struct FitOut {
 }
 
 fn fit_once(case: &Case, ambient: &Option<TapeSpec>) -> (FitOut, Option<Box<dyn std::any::Any + Send>>) {
+    macro_rules! go {
+        ($t:ty) => {
+            match case.backend {
+                1 => fit_once_t::<$t, ndarray::Array2<$t>>(case, ambient, 0),
+                2 => fit_once_t::<$t, ndarray::Array2<$t>>(case, ambient, 1),
+                3 => fit_once_t::<$t, nalgebra::DMatrix<$t>>(case, ambient, 0),
+                _ => fit_once_t::<$t, DenseMatrix<$t>>(case, ambient, 0),
+            }
+        };
+    }
     if case.f32m {
-        fit_once_t::<f32>(case, ambient)
+        go!(f32)
     } else {
-        fit_once_t::<f64>(case, ambient)
+        go!(f64)
     }
 }
 
-fn fit_once_t<T: Elem>(case: &Case, ambient: &Option<TapeSpec>) -> (FitOut, Option<Box<dyn std::any::Any + Send>>) {
-    let x: DenseMatrix<T> = mat_t(&case.x);
-    let yt: Vec<T> = case.y.iter().map(|v| T::from_f64(*v).unwrap()).collect();
+fn fit_once_t<T: Elem, M: Mx<T>>(case: &Case, ambient: &Option<TapeSpec>, layout: u8) -> (FitOut, Option<Box<dyn std::any::Any + Send>>) {
+    let x: M = M::build(&case.x, layout);
+    let yt: M::RowVector = M::vec_from(&case.y);
     let mut q = case.x.clone();
     q.extend(queries_of(case));
-    let qm: DenseMatrix<T> = mat_t(&q);
+    let qm: M = M::build(&q, layout);
     let guard = ambient.as_ref().map(TapeGuard::install);
     let _plan = StdPlanGuard::install(case.std_fault);
     rand::sim::take_std_faults_fired();
@@ -274,7 +336,7 @@ fn fit_once_t<T: Elem>(case: &Case, ambient: &Option<TapeSpec>) -> (FitOut, Opti
             }
         };
         let via_trait = case.ctor / 3 == 1;
-        match guarded(|| if via_trait { <RandomForestClassifier<T> as SupervisedEstimator<DenseMatrix<T>, Vec<T>, RandomForestClassifierParameters>>::fit(&x, &yt, params) } else { RandomForestClassifier::<T>::fit(&x, &yt, params) }) {
+        match guarded(|| if via_trait { <RandomForestClassifier<T> as SupervisedEstimator<M, M::RowVector, RandomForestClassifierParameters>>::fit(&x, &yt, params) } else { RandomForestClassifier::<T>::fit(&x, &yt, params) }) {
             Err(msg) => out.err = Some(format!("panic: {}", msg)),
             Ok(Err(e)) => out.err = Some(format!("error: {}", e)),
             Ok(Ok(model)) => {
@@ -283,10 +345,10 @@ fn fit_once_t<T: Elem>(case: &Case, ambient: &Option<TapeSpec>) -> (FitOut, Opti
                 out.bags = bag_log.borrow().clone();
                 out.bytes = bincode::serialize(&model).unwrap_or_default();
                 out.value = serde_json::to_value(&model).unwrap_or(Value::Null);
-                run_ops::<T>(case, &mut out, &x, &qm, &|m| if via_trait { Predictor::<DenseMatrix<T>, Vec<T>>::predict(&model, m).map(to64) } else { model.predict(m).map(to64) }, &|m| model.predict_oob(m).map(to64));
+                run_ops::<T, M>(case, layout, &mut out, &x, &qm, &|m| if via_trait { Predictor::<M, M::RowVector>::predict(&model, m).map(M::vec_to64) } else { model.predict(m).map(M::vec_to64) }, &|m| model.predict_oob(m).map(M::vec_to64));
                 if case.many > 0 && out.err.is_none() {
                     let big: Vec<Vec<f64>> = many_src(case).iter().map(|s| q[*s].clone()).collect();
-                    match guarded(|| model.predict(&mat_t::<T>(&big)).map(to64)) {
+                    match guarded(|| model.predict(&M::build(&big, layout)).map(M::vec_to64)) {
                         Ok(Ok(v)) => out.many = Some(v),
                         Ok(Err(e)) => out.err = Some(format!("predict on {} rows: error: {}", big.len(), e)),
                         Err(m) => out.err = Some(format!("predict on {} rows: panic: {}", big.len(), m)),
@@ -296,7 +358,7 @@ fn fit_once_t<T: Elem>(case: &Case, ambient: &Option<TapeSpec>) -> (FitOut, Opti
                     let restored: Result<RandomForestClassifier<T>, String> = T::restore_clf(&out.bytes, &out.value, case.roundtrip);
                     match restored {
                         Err(e) => out.restore_err = Some(e),
-                        Ok(m2) => match guarded(|| (m2.predict(&qm).map(to64), if case.params.keep_samples { Some(m2.predict_oob(&x).map(to64)) } else { None })) {
+                        Ok(m2) => match guarded(|| (m2.predict(&qm).map(M::vec_to64), if case.params.keep_samples { Some(m2.predict_oob(&x).map(M::vec_to64)) } else { None })) {
                             Ok((Ok(pv), ob)) => match ob {
                                 Some(Err(e)) => out.restore_err = Some(format!("predict_oob error: {}", e)),
                                 Some(Ok(o)) => out.restored = Some((pv, Some(o))),
@@ -309,8 +371,8 @@ fn fit_once_t<T: Elem>(case: &Case, ambient: &Option<TapeSpec>) -> (FitOut, Opti
                 }
                 let tr = threshold_rows(case, &out.value);
                 if !tr.is_empty() && out.err.is_none() {
-                    if let Ok(Ok(v)) = guarded(|| model.predict(&mat_t::<T>(&tr))) {
-                        out.thr = Some((tr, to64(v)));
+                    if let Ok(Ok(v)) = guarded(|| model.predict(&M::build(&tr, layout)).map(M::vec_to64)) {
+                        out.thr = Some((tr, v));
                     }
                 }
                 model_box = Some(Box::new(model));
@@ -358,7 +420,7 @@ fn fit_once_t<T: Elem>(case: &Case, ambient: &Option<TapeSpec>) -> (FitOut, Opti
             }
         };
         let via_trait = case.ctor / 3 == 1;
-        match guarded(|| if via_trait { <RandomForestRegressor<T> as SupervisedEstimator<DenseMatrix<T>, Vec<T>, RandomForestRegressorParameters>>::fit(&x, &yt, params) } else { RandomForestRegressor::<T>::fit(&x, &yt, params) }) {
+        match guarded(|| if via_trait { <RandomForestRegressor<T> as SupervisedEstimator<M, M::RowVector, RandomForestRegressorParameters>>::fit(&x, &yt, params) } else { RandomForestRegressor::<T>::fit(&x, &yt, params) }) {
             Err(msg) => out.err = Some(format!("panic: {}", msg)),
             Ok(Err(e)) => out.err = Some(format!("error: {}", e)),
             Ok(Ok(model)) => {
@@ -367,10 +429,10 @@ fn fit_once_t<T: Elem>(case: &Case, ambient: &Option<TapeSpec>) -> (FitOut, Opti
                 out.bags = bag_log.borrow().clone();
                 out.bytes = bincode::serialize(&model).unwrap_or_default();
                 out.value = serde_json::to_value(&model).unwrap_or(Value::Null);
-                run_ops::<T>(case, &mut out, &x, &qm, &|m| if via_trait { Predictor::<DenseMatrix<T>, Vec<T>>::predict(&model, m).map(to64) } else { model.predict(m).map(to64) }, &|m| model.predict_oob(m).map(to64));
+                run_ops::<T, M>(case, layout, &mut out, &x, &qm, &|m| if via_trait { Predictor::<M, M::RowVector>::predict(&model, m).map(M::vec_to64) } else { model.predict(m).map(M::vec_to64) }, &|m| model.predict_oob(m).map(M::vec_to64));
                 if case.many > 0 && out.err.is_none() {
                     let big: Vec<Vec<f64>> = many_src(case).iter().map(|s| q[*s].clone()).collect();
-                    match guarded(|| model.predict(&mat_t::<T>(&big)).map(to64)) {
+                    match guarded(|| model.predict(&M::build(&big, layout)).map(M::vec_to64)) {
                         Ok(Ok(v)) => out.many = Some(v),
                         Ok(Err(e)) => out.err = Some(format!("predict on {} rows: error: {}", big.len(), e)),
                         Err(m) => out.err = Some(format!("predict on {} rows: panic: {}", big.len(), m)),
@@ -380,7 +442,7 @@ fn fit_once_t<T: Elem>(case: &Case, ambient: &Option<TapeSpec>) -> (FitOut, Opti
                     let restored: Result<RandomForestRegressor<T>, String> = T::restore_reg(&out.bytes, &out.value, case.roundtrip);
                     match restored {
                         Err(e) => out.restore_err = Some(e),
-                        Ok(m2) => match guarded(|| (m2.predict(&qm).map(to64), if case.params.keep_samples { Some(m2.predict_oob(&x).map(to64)) } else { None })) {
+                        Ok(m2) => match guarded(|| (m2.predict(&qm).map(M::vec_to64), if case.params.keep_samples { Some(m2.predict_oob(&x).map(M::vec_to64)) } else { None })) {
                             Ok((Ok(pv), ob)) => match ob {
                                 Some(Err(e)) => out.restore_err = Some(format!("predict_oob error: {}", e)),
                                 Some(Ok(o)) => out.restored = Some((pv, Some(o))),
@@ -393,8 +455,8 @@ fn fit_once_t<T: Elem>(case: &Case, ambient: &Option<TapeSpec>) -> (FitOut, Opti
                 }
                 let tr = threshold_rows(case, &out.value);
                 if !tr.is_empty() && out.err.is_none() {
-                    if let Ok(Ok(v)) = guarded(|| model.predict(&mat_t::<T>(&tr))) {
-                        out.thr = Some((tr, to64(v)));
+                    if let Ok(Ok(v)) = guarded(|| model.predict(&M::build(&tr, layout)).map(M::vec_to64)) {
+                        out.thr = Some((tr, v));
                     }
                 }
                 model_box = Some(Box::new(model));
@@ -514,12 +576,12 @@ fn alt_rows(case: &Case) -> Vec<Vec<f64>> {
     r
 }
 
-type PredFn<'a, T> = &'a dyn Fn(&DenseMatrix<T>) -> Result<Vec<f64>, smartcore::error::Failed>;
+type PredFn<'a, M> = &'a dyn Fn(&M) -> Result<Vec<f64>, smartcore::error::Failed>;
 
 /// issue the case's call sequence against one fitted forest; the first result of each kind is kept
 /// for the oracles, every repetition must be bit-identical to it
-fn run_ops<T: RealNumber>(case: &Case, out: &mut FitOut, x: &DenseMatrix<T>, qm: &DenseMatrix<T>, predict: PredFn<'_, T>, predict_oob: PredFn<'_, T>) {
-    let alt: DenseMatrix<T> = mat_t(&alt_rows(case));
+fn run_ops<T: RealNumber, M: Mx<T>>(case: &Case, layout: u8, out: &mut FitOut, x: &M, qm: &M, predict: PredFn<'_, M>, predict_oob: PredFn<'_, M>) {
+    let alt: M = M::build(&alt_rows(case), layout);
     let default_ops = [0u8, 1u8];
     let ops: &[u8] = if case.ops.is_empty() { &default_ops } else { &case.ops };
     let mut seen_pred = false;
@@ -532,11 +594,11 @@ fn run_ops<T: RealNumber>(case: &Case, out: &mut FitOut, x: &DenseMatrix<T>, qm:
             0 => guarded(|| predict(qm)),
             1 => guarded(|| predict_oob(x)),
             2 => guarded(|| predict(&alt)),
-            3 => guarded(|| predict(&mat_t::<T>(&case.x[0..1]))),
+            3 => guarded(|| predict(&M::build(&case.x[0..1], layout))),
             _ => {
                 let mut t = case.x.clone();
                 t.extend(case.x.iter().cloned());
-                guarded(|| predict(&mat_t::<T>(&t)))
+                guarded(|| predict(&M::build(&t, layout)))
             }
         };
         let name = ["predict", "predict_oob", "predict(other matrix of the training shape)", "predict(single-row matrix)", "predict(training rows stacked twice)"][(*op).min(4) as usize];
@@ -674,9 +736,10 @@ impl C06 {
         let p = case.x[0].len();
         let pr = &case.params;
         let ctx = format!(
-            "RandomForest{}::fit(n={}, p={}, n_trees={}, m={:?}, max_depth={:?}, min_leaf={}, min_split={}, keep_samples={}, seed={})",
+            "RandomForest{}::fit(n={}, p={}, n_trees={}, m={:?}, max_depth={:?}, min_leaf={}, min_split={}, keep_samples={}, seed={}, matrix={})",
             if case.task == "clf" { "Classifier" } else { "Regressor" },
-            n, p, pr.n_trees, pr.m, pr.max_depth, pr.min_samples_leaf, pr.min_samples_split, pr.keep_samples, pr.seed
+            n, p, pr.n_trees, pr.m, pr.max_depth, pr.min_samples_leaf, pr.min_samples_split, pr.keep_samples, pr.seed,
+            ["DenseMatrix", "ndarray", "ndarray(column-major)", "nalgebra"][(case.backend % 4) as usize]
         );
         let mut d = Digest::new();
         d.str(&case.task).usize(n).usize(p).u64(pr.seed).usize(pr.n_trees);
@@ -707,6 +770,7 @@ impl C06 {
         rep.count("steps.trees_fitted", 2 * pr.n_trees as u64);
         rep.count("fault.seeded-draw-boundary-value", a.draw_faults + b.draw_faults);
         rep.count("fault.seeded-draw-plan-installed", case.std_fault.is_some() as u64);
+        rep.count(["steps.twins-on-dense-matrix", "steps.twins-on-ndarray", "steps.twins-on-ndarray-column-major", "steps.twins-on-nalgebra"][(case.backend % 4) as usize], 1);
         if let Some((outcome, ncmp)) = &case.sort_adversary {
             let n = case.x.len() as f64;
             rep.count(&format!("fault.adversarial-sort-order.{}", outcome), 1);
@@ -1353,8 +1417,9 @@ fn gen_case(batch: &str, _index: u64, seed: u64) -> Case {
         let mut po = Xo::fork(seed, "post");
         (if po.chance(0.01) { *po.pick(&[1030usize, 2060, 4100, 4100, 4100, 8200, 16_400, 65_600]) } else { 0 }, if po.chance(0.2) { 1 + po.below(2) as u8 } else { 0 })
     };
+    let backend = { let mut bk = Xo::fork(seed, "backend"); if bk.chance(0.2) { 1 + bk.below(3) as u8 } else { 0 } };
     let std_fault = if batch == "twins-draw-faults" { Some((sc.u64(), *pr.pick(&[300u32, 3000, 30_000, 150_000, 350_000]))) } else { None };
-    Case { task: task.into(), x, y, params, queries, ambient_a, ambient_b, pollute, ops, refit_same_thread, kind: kind.into(), ctor, f32m, std_fault, nonfinite_cells, sort_adversary, many, roundtrip }
+    Case { task: task.into(), x, y, params, queries, ambient_a, ambient_b, pollute, ops, refit_same_thread, kind: kind.into(), ctor, f32m, std_fault, nonfinite_cells, sort_adversary, many, roundtrip, backend }
 }
 
 impl Property for C06 {
